@@ -317,6 +317,67 @@ theorem close_last (L : Laws K) (env : Env K) (child : Child) (hfresh : ∀ c, e
   · exact ⟨P, h2, hcomp, by rw [← hfed]; exact h3⟩
   · exact absurd hcl h1
 
+private theorem run_snoc (env : Env K) (child : Child) (s : St K) (evs : List Ev) (e : Ev) :
+    run env child s (evs ++ [e]) = handle env child (run env child s evs) e := by
+  simp [run, List.foldl_append]
+
+private theorem dataOf_snoc_data (evs : List Ev) (d : Bytes) : dataOf (evs ++ [.data d]) = dataOf evs ++ d := by
+  simp [dataOf, dataOfEv]
+
+private theorem handle_data_open (env : Env K) (child : Child) (s : St K) (d : Bytes) (h : s.st = .open_) :
+    handle env child s (.data d) = receiveData child s d := by
+  simp [handle, h]
+
+/-- **child_stream_complete_run** — `child_stream_complete` as a statement about the history itself: if after `evs` the tunnel is OPEN
+    (nothing swallowed, no exception) and the next event is a segment whose `recv` loop ends normally, then after `evs ++ [segment]`
+    the child holds the COMPLETE plaintext of all bytes of the history. -/
+theorem child_stream_complete_run (L : Laws K) (env : Env K) (child : Child) (hfresh : ∀ c, env.mkTls = some c → Fresh L c)
+    (sd : Side) (evs : List Ev) (hc : (run env child (init K sd) evs).crashed = false) (c : K.σ) (d : Bytes)
+    (hs : (run env child (init K sd) evs).tls = some c) (he : (run env child (init K sd) evs).errored = false)
+    (hst : (run env child (init K sd) evs).st = .open_)
+    (hok : (recvLoop K (K.inPending (feedIf c d) + 1) (feedIf c d) []).2.1 ≠ .err) :
+    plainOf (run env child (init K sd) (evs ++ [.data d])).toChild = (L.dec (dataOf (evs ++ [.data d]))).1 := by
+  have hq : queueing (run env child (init K sd) evs) = false := by simp [queueing, hst, isEst]
+  rw [run_snoc, handle_data_open _ _ _ _ hst, dataOf_snoc_data]
+  exact child_stream_complete L env child hfresh sd evs hc c d hs he hq hok
+
+/-- **close_last_run** — `close_last` about the history itself: when the segment appended to a history that left the tunnel OPEN makes the
+    close_notify visible, the history's child events end with (the rest of the data,) exactly one ConnectionClosed, and the child then
+    holds the complete plaintext of the whole connection. -/
+theorem close_last_run (L : Laws K) (env : Env K) (child : Child) (hfresh : ∀ c, env.mkTls = some c → Fresh L c)
+    (sd : Side) (evs : List Ev) (hc : (run env child (init K sd) evs).crashed = false) (c : K.σ) (d : Bytes)
+    (hs : (run env child (init K sd) evs).tls = some c) (he : (run env child (init K sd) evs).errored = false)
+    (hst : (run env child (init K sd) evs).st = .open_)
+    (hcl : (recvLoop K (K.inPending (feedIf c d) + 1) (feedIf c d) []).2.1 = .closed) :
+    ∃ P, (run env child (init K sd) (evs ++ [.data d])).toChild
+          = (run env child (init K sd) evs).toChild ++ (if P.isEmpty then [] else [.data P]) ++ [.closed]
+      ∧ plainOf (run env child (init K sd) (evs ++ [.data d])).toChild = (L.dec (dataOf (evs ++ [.data d]))).1
+      ∧ (L.dec (dataOf (evs ++ [.data d]))).2 = true := by
+  have hq : queueing (run env child (init K sd) evs) = false := by simp [queueing, hst, isEst]
+  rw [run_snoc, handle_data_open _ _ _ _ hst, dataOf_snoc_data]
+  exact close_last L env child hfresh sd evs hc c d hs he hq hcl
+
+/-- What the peer's TCP close does to an OPEN tunnel whose child does not react to ConnectionClosed (or which has already seen the
+    close_notify): tunnel CLOSED, the TLS object, the emitted ciphertext and the accepted payloads untouched — exactly the state
+    `send_after_half_close` starts from. -/
+theorem half_close_keeps_engine (env : Env K) (child : Child) (s : St K) (c : K.σ)
+    (hst : s.st = .open_) (htls : s.tls = some c) (he : s.errored = false)
+    (hquiet : K.gotShutdown c = true ∨ child s.toChild .closed = []) :
+    (handle env child s .closeEv).st = .closed ∧ (handle env child s .closeEv).tls = some c
+    ∧ (handle env child s .closeEv).errored = false ∧ (handle env child s .closeEv).up = s.up
+    ∧ (handle env child s .closeEv).accepted = s.accepted
+    ∧ ((handle env child s .closeEv).toChild = s.toChild ∨ (handle env child s .closeEv).toChild = s.toChild ++ [.closed]) := by
+  by_cases hg : K.gotShutdown c = true
+  · simp [handle, hst, htls, hg, he]
+  · have hch : child s.toChild .closed = [] := by
+      rcases hquiet with h | h
+      · exact absurd h hg
+      · exact h
+    have hq : queueing (addRouted s .closed) = false := by simp [queueing, hst, isEst]
+    simp only [handle, hst, htls, hg, Bool.false_eq_true, if_false, if_true, eventToChild, etcCore]
+    rw [if_neg (by simp [he]), hq]
+    simp [deliver, hch, handleCmds, he, htls]
+
 /-- **send_after_half_close** (tunnel level).  The peer's TCP close puts the tunnel into CLOSED (first part) — and CLOSED
     does not stop the outbound direction: when the child then answers an event with SendData, `_handle_command` still hands
     the payload to the engine and forwards everything it produces; the peer's reading of the emitted ciphertext is the
@@ -497,5 +558,71 @@ example : (run (K := idCodec) { mkTls := some {}, parse := fun _ => .complete, s
 /-- the model is not constant: a handshake-phase event is stored, an open tunnel delivers -/
 example : (eventToChild (K := idCodec) (fun _ _ => []) { side := .client, st := .establishing } (.other 7)).toChild = [] := by decide
 example : (eventToChild (K := idCodec) (fun _ _ => []) { side := .client, st := .open_ } (.other 7)).toChild = [.other 7] := by decide
+
+/-! ### witnesses proposed by the round-6 cross-audit (notes/audit6/C14.md) -/
+
+/-- W1: reference codec, server side on an open connection: handshake, data cut inside a record, close_notify -/
+example :
+    let s := run (refEnv true (fun _ => .complete) false) (fun _ _ => []) (init RefL.refCodec .server)
+      [.start true, .data [0x16, 0, 1, 1], .data [0x17, 0, 2, 0x61], .data [0x62, 0x15, 0, 0]]
+    s.crashed = false ∧ s.toChild = [.start, .data [0x61, 0x62], .closed] ∧ s.st = .open_ ∧ s.queue = [] := by
+  decide +kernel
+
+/-- W2: client side (ClientTLSLayer): ClientHello buffered, handshake, child answers an unrelated event with SendData -/
+example :
+    let s := run (refEnv false (fun b => if b.length < 4 then .incomplete else .complete) false)
+      (fun _ e => match e with | .other 5 => [.send [1, 2, 3]] | _ => []) (init RefL.refCodec .client)
+      [.start true, .data [0x16, 0], .other 9, .data [1, 1], .other 5, .data [0x17, 0, 1, 7]]
+    s.crashed = false ∧ s.errored = false ∧ s.toChild = [.start, .other 9, .other 5, .data [7]]
+      ∧ s.accepted = [1, 2, 3] ∧ RefL.enc (cipherOf s.up) = [1, 2, 3] := by
+  decide +kernel
+
+/-- W3: the hypotheses of `close_last` / `child_stream_complete` hold together on a reachable reference-codec state:
+    after [Start, handshake-done record] the layer is OPEN, nothing stored or swallowed, not crashed, and the segment
+    "application record ++ close_notify" makes the recv loop end with ZeroReturn (`.closed`) -/
+example :
+    let s := run (refEnv true (fun _ => .complete) false) (fun _ _ => []) (init RefL.refCodec .server)
+      [.start true, .data [0x16, 0, 1, 1]]
+    let d : Bytes := [0x17, 0, 1, 0x41, 0x15, 0, 0]
+    s.crashed = false ∧ s.errored = false ∧ queueing s = false ∧
+      s.tls.map (fun c => decide ((recvLoop RefL.refCodec (RefL.refCodec.inPending (feedIf c d) + 1) (feedIf c d) []).2.1 = .closed))
+        = some true := by
+  decide +kernel
+
+/-- W4: … and with a segment that ends inside a record the loop ends with WantRead (`hok` of `child_stream_complete`) -/
+example :
+    let s := run (refEnv true (fun _ => .complete) false) (fun _ _ => []) (init RefL.refCodec .server)
+      [.start true, .data [0x16, 0, 1, 1]]
+    let d : Bytes := [0x17, 0, 1, 0x41, 0x17, 0, 5, 1]
+    s.tls.map (fun c => decide ((recvLoop RefL.refCodec (RefL.refCodec.inPending (feedIf c d) + 1) (feedIf c d) []).2.1 = .want))
+      = some true := by
+  decide +kernel
+
+/-- W5: the state `t` of `send_after_half_close` is reachable: after the peer's TCP close the tunnel is CLOSED, the TLS object is
+    still there, nothing crashed/errored (hup/hacc then follow from `peer_stream_exact`), and a child that answers `.other 3`
+    with SendData gets its payload accepted and readable by the peer -/
+example :
+    let child : Child := fun _ e => match e with | .other 3 => [.send [9, 8]] | _ => []
+    let t := run (refEnv true (fun _ => .complete) false) child (init RefL.refCodec .server)
+      [.start true, .data [0x16, 0, 1, 1], .closeEv]
+    t.st = .closed ∧ t.tls.isSome = true ∧ t.errored = false ∧ t.crashed = false ∧ child t.toChild (.other 3) = [.send [9, 8]]
+      ∧ (handle (refEnv true (fun _ => .complete) false) child t (.other 3)).accepted = [9, 8]
+      ∧ RefL.enc (cipherOf (handle (refEnv true (fun _ => .complete) false) child t (.other 3)).up) = [9, 8] := by
+  decide +kernel
+
+/-- W6: `queued_during_handshake_in_order` on a non-initial state: two events stored during the handshake come out in order -/
+example :
+    let s := run (refEnv false (fun b => if b.length < 4 then .incomplete else .complete) false) (fun _ _ => []) (init RefL.refCodec .client)
+      [.start true, .other 1, .data [0x16, 0], .other 2]
+    s.st = .establishing ∧ s.replyTo = false ∧ s.errored = false ∧ s.queue = [.start, .other 1, .other 2] ∧ s.toChild = []
+      ∧ (handshakeFinished (fun _ _ => []) s false).toChild = [.start, .other 1, .other 2] := by
+  decide +kernel
+
+/-- W7: a failed client handshake (fatal record): the child is told nothing more (errored), `t ≠ []` branch of `child_stream_exact` -/
+example :
+    let s := run (refEnv false (fun _ => .complete) false) (fun _ _ => []) (init RefL.refCodec .client)
+      [.start true, .data [0x16, 0, 1, 2], .other 4]
+    s.crashed = false ∧ s.errored = true ∧ s.st = .closed ∧ s.toChild = [] ∧ s.queue = [] ∧ s.routed = [.start, .other 4] := by
+  decide +kernel
 
 end MitmVerif.Props.C14
